@@ -22,7 +22,9 @@ SELF = "<<self>>"     # internal marker for "the receiver itself"
 # ---------------------------------------------------------------------------------------------
 # fields under test (fid 0 = the field whose proxy is exercised, fid 1 = "another field")
 # ---------------------------------------------------------------------------------------------
-FIELDS = ["int", "str", "bool", "intreq"]
+FIELDS = ["int", "str", "bool", "intreq", "intwide", "intinc", "dictitem"]
+NONIDEM = ("intinc",)          # item validation is NOT idempotent (a validator= callback that adds 40): nothing may validate twice
+MUTABLE = ("dictitem",)        # items are mutable objects (typed dicts): copies are shallow, item objects are shared
 
 
 def _mk_field(name):
@@ -37,12 +39,20 @@ def _mk_field(name):
         return BoolField()
     if name == "str0":
         return StringField()
+    if name == "intwide":
+        return IntField(min=-50, max=1000)
+    if name == "intinc":
+        return IntField(min=0, max=100, validator=lambda cfg, v: v + 40)
+    if name == "dictitem":
+        from cincoconfig import DictField
+        return DictField(StringField(), IntField(min=0, max=100))
     if name == "int0":
         return IntField()
     raise Broken("unknown field " + name)
 
 
-OTHER_OF = {"int": "str0", "intreq": "str0", "str": "str0", "bool": "str0"}
+# the "other" list field: same class with looser / stricter constraints for the int pair, a string list otherwise
+OTHER_OF = {"int": "intwide", "intwide": "int", "intreq": "str0", "str": "str0", "bool": "str0", "intinc": "str0", "dictitem": "str0"}
 
 # candidate values per field: classified at run time into valid / normalisable / invalid
 POOL = {
@@ -50,13 +60,19 @@ POOL = {
     "intreq": [0, 1, 5, 7, 42, 100, "7", " 5 ", "100", 3.0, None, -1, 101, "abc", True],
     "str": ["a", "bc", "", "x y", " Ab ", "XY", "bC\t", None, 5, True, 2.5, ["a"]],
     "bool": [True, False, "yes", "no", "TRUE", "0", 1, 0, 7, None, "maybe", "", [True]],
+    "intwide": [0, 7, 500, -50, 1000, 42, "7", " 900 ", 3.0, None, -51, 1001, "abc", True],
+    "intinc": [0, 5, 20, 45, 60, "7", " 5 ", -1, 101, "abc", True, [1]],
+    "dictitem": [{"a": 1}, {"b": 2}, {}, {"a": 1, "b": 2}, {"k": "7"}, {"a": " 5 "}, {"a": "x"}, 5, "s", {"a": -1}, [1]],
 }
 # string values the "other" field (a plain StringField) can hold, per main field
 OTHER_POOL = {
-    "int": ["7", "0", " 9 ", "100", "abc", "101", ""],
+    "int": [7, 0, 100, 500, -5, 1000, 42],
     "intreq": ["7", "0", "100", "abc", "101"],
     "str": ["a", " Ab ", "XY", "bc"],
     "bool": ["yes", "no", "on", "maybe", "x"],
+    "intwide": [7, 0, 100, 55],
+    "intinc": ["7", "0", "abc"],
+    "dictitem": ["a", "b"],
 }
 # query arguments (never validated by the proxy): cross-type equality matters here
 QUERY = {
@@ -64,6 +80,9 @@ QUERY = {
     "intreq": [0, 1, 5, 7, 100, True, 1.0, "7", None],
     "str": ["a", "bc", "", "ab", "xy", "XY", None, 0],
     "bool": [True, False, 1, 0, 1.0, "yes", None, 2],
+    "intwide": [0, 7, 500, True, 7.0, "7", None],
+    "intinc": [40, 45, 60, 100, 47, 5, None],
+    "dictitem": [{"a": 1}, {}, None, 5, {"b": 2}, {"k": 7}],
 }
 
 _CACHE = {}
@@ -126,6 +145,7 @@ def _validate(field, x):
 
 
 def _same(a, b):
+    a, b = _plain_data(a), _plain_data(b)      # typed dict items are compared by their plain contents
     return type(a) is type(b) and a == b
 
 
@@ -133,6 +153,10 @@ def classify_value(fname, x):
     r = _validate(_env(fname)[1], x)
     if r[0] == "err":
         return "invalid"
+    if fname in NONIDEM:           # no fixed points: "valid" = accepted as the item type itself
+        return "valid" if isinstance(x, int) else "normalisable"
+    if fname in MUTABLE:           # a plain dict comes back as a typed dict with the same entries
+        return "valid" if isinstance(x, dict) and _deep_same(dict(r[1]), x) else "normalisable"
     return "valid" if _same(r[1], x) else "normalisable"
 
 
@@ -175,7 +199,7 @@ def _list_matrix(fname, tier):
         oth_by[classify_value(fname, x)].append(x)
     sl_list = [(None, None, None), (1, 2, None), (0, 0, None), (None, None, 2), (None, None, -1), (5, 1, None),
                (-2, None, None), (1, None, 2), (None, None, 0), (2, 0, -1), (-1, -5, -1)]
-    for init in _inits(fname):
+    for init in (_inits(fname) if fname in FIELDS[:2] else _inits(fname)[1:]):
         n = len(init)
         idxs = sorted({0, -1, n, -n - 1, n - 1, 1, 7})
         single = []
@@ -206,6 +230,8 @@ def _list_matrix(fname, tier):
                 single.append([("iadd", it)])
                 single.append([("add", it)])
                 single.append([("new", it)])
+                single.append([("assign", it)])
+                single.append([("assign", it), ("append", reps["normalisable"]), ("append", reps["invalid"])])
                 for sl in sl_list[:6]:
                     single.append([("setslice", sl, it)])
                 if kind in ("list", "iter", "same"):
@@ -223,11 +249,12 @@ def _list_matrix(fname, tier):
         for q in qs:
             single += [[("remove", q)], [("index", q, None, None)], [("count", q)], [("contains", q)]]
         single += [[("index", qs[1], 1, None)], [("index", qs[1], -2, 5)], [("index", qs[1], None, 1)]]
-        single += [[("clear",)], [("reverse",)], [("sort", False)], [("sort", True)], [("copy",)], [("len",)],
-                   [("iter",)], [("reversed",)]]
+        single += [[("clear",)], [("reverse",)], [("copy",)], [("len",)], [("iter",)], [("reversed",)]]
+        if fname not in MUTABLE:
+            single += [[("sort", False)], [("sort", True)]]
         for k in (-1, 0, 1, 2):
             single += [[("mul", k)], [("rmul", k)], [("imul", k)]]
-        norm_init = [_validate(_env(fname)[1], x)[1] for x in init]
+        norm_init = [_plain_data(_validate(_env(fname)[1], x)[1]) for x in init]
         for o in (list(norm_init), tuple(norm_init), norm_init + [v[0]], None):
             single += [[("eq", o)], [("ne", o)]]
         if norm_init:
@@ -275,7 +302,7 @@ def _list_random(rng, fname, maxops):
     cls = _by_class(fname)
     ok = cls["valid"] + cls["normalisable"]
     init = [rng.choice(ok) for _ in range(rng.choice([0, 1, 2, 3, 3, 5]))]
-    none_possible = any(x is None for x in init)
+    none_possible = any(x is None for x in init) or fname in MUTABLE
     ops = []
     n_est = len(init)
     for _ in range(rng.randint(3, maxops)):
@@ -288,7 +315,7 @@ def _list_random(rng, fname, maxops):
         elif r < 0.26:
             x = _rand_item(rng, fname, cls); ops.append(("setitem", rng.randint(-n - 1, n + 1), x))
         elif r < 0.36:
-            it = _rand_iterable(rng, fname, cls); ops.append((rng.choice(["extend", "iadd", "add", "new"]), it))
+            it = _rand_iterable(rng, fname, cls); ops.append((rng.choice(["extend", "iadd", "add", "new", "assign"]), it))
             x = None if not _has_none(it) else 0
             n_est += len(it[1]) if ops[-1][0] in ("extend", "iadd") else 0
         elif r < 0.48:
@@ -334,7 +361,7 @@ def _list_random(rng, fname, maxops):
                 none_possible = True
         if last[0] in ("append", "insert", "setitem") and last[-1] is None:
             none_possible = True
-        if last[0] in ("extend", "iadd", "setslice") and _has_none(last[-1]):
+        if last[0] in ("extend", "iadd", "setslice", "assign") and _has_none(last[-1]):
             none_possible = True
     return {"kind": "list", "field": fname, "init": init, "ops": ops, "src": "random"}
 
@@ -359,6 +386,8 @@ def _bad_inits():
     """whole-value assignment of a container with an unacceptable item / entry, in every placement"""
     out = []
     for fname in FIELDS:
+        if fname in MUTABLE:
+            continue              # a typed dict as list item names no list field in its error path: C15's open finding F37
         cls = _by_class(fname)
         v = [x for x in cls["valid"] if x is not None]
         for place in PLACES:
@@ -404,6 +433,9 @@ def generate_for(prop, rng, tier):
     cases = generate(rng, tier)
     if prop == "C15":
         cases = [c for c in cases if c["kind"] == "dict" or c.get("src") in ("bad-init", "placed")]
+    if prop == "C06":      # "a rejected single-item operation leaves the container unchanged": histories with such operations
+        single = ("append", "insert", "setitem", "setdefault", "setdefault1")
+        cases = [c for c in cases if c.get("src") == "random" or any(op[0] in single for op in c.get("ops", []))]
     return cases
 
 
@@ -413,7 +445,9 @@ def generate_for(prop, rng, tier):
 DKINDS = {"si": ("str", "int"), "is": ("int", "str"), "ab": ("any", "bool")}
 POOL["any"] = [1, True, 1.0, "a", None, 0, False, "A", 2]
 QUERY["any"] = [1, True, 1.0, "a", None, 0, 2.5, "zz", False]
-OTHER_POOL["any"] = ["a", "b", "1"]
+# string keys / values the "other" dict field (StringField -> StringField) can hold, per key / value field of the main dict
+DOTHER_POOL = {"int": ["7", "0", " 9 ", "100", "abc", "101", ""], "str": OTHER_POOL["str"], "bool": OTHER_POOL["bool"],
+               "any": ["a", "b", "1"]}
 # "otherfield": a typed dict of another field held by another configuration; "otherfieldsame": of another field
 # of the SAME configuration object; "duck": an object with keys() and __getitem__ only; "mappingsub": a
 # collections.abc.Mapping subclass that is not a dict; "pairs2": a list of 2-element lists; "tpairs": a tuple of pairs
@@ -452,6 +486,7 @@ def _mapsub(d):
     return MapSub(d)
 CLASH_NAMES = ("iterable", "self")     # parameter names of DictProxy.update (open finding F51)
 CLASH_VALUES = {"si": [0, 5, None, "7", 100], "ab": [False, True, None, 0, 1]}
+ASSIGN_KINDS = ("dict", "compat", "othercfg", "otherfield", "otherfieldsame", "self")     # DictField accepts dict instances only
 OR_KINDS = ["dict", "pairs", "pairs2", "tpairs", "iter", "gen", "compat", "othercfg", "otherfield", "otherfieldsame", "self"]   # `|` with other mappings is their __ror__
 KW_KEYS = {"str": ["a", "B", "c ", "zz"], "int": ["7", "5", "abc", "100", "101"], "any": ["a", "b", "k"]}
 
@@ -510,7 +545,7 @@ def _src_pairs(dk, skind, kcls, vcls, ck, rng=None):
         ok_v = vcls["valid"] + vcls["normalisable"]
         return [(ok_k[0], ok_v[0]), (ok_k[-1], ok_v[-1])]
     if skind in OTHERFIELD_KINDS:
-        ks, vs = OTHER_POOL[kn], OTHER_POOL[vn]
+        ks, vs = DOTHER_POOL[kn], DOTHER_POOL[vn]
         _, kf, vf = _denv(dk)
         kk = [k for k in ks if classify_by(kf, k) == (ck if ck != "valid" else classify_by(kf, k))]
         good_k = [k for k in ks if classify_by(kf, k) != "invalid"] or ks
@@ -548,6 +583,10 @@ def _dict_matrix(tier):
                         continue
                     ps = _src_pairs(dk, skind, kcls, vcls, ck)
                     single += [[("update", (skind, ps), [])], [("new", (skind, ps))]]
+                    if skind in ASSIGN_KINDS:
+                        single += [[("assign", (skind, ps))],
+                                   [("assign", (skind, ps)), ("setitem", (kcls["normalisable"] or k)[0], v[0]),
+                                    ("setitem", k[0], (vcls["invalid"] or v)[0])]]
                     if skind != "none":
                         single += [[("ior", (skind, ps))]]
                     if skind in OR_KINDS:
@@ -607,7 +646,7 @@ def _dict_random(rng, i, maxops):
         if skind in ("compat", "othercfg"):
             return (skind, rpairs(n, True))
         if skind in OTHERFIELD_KINDS:
-            return (skind, [(rng.choice(OTHER_POOL[kn]), rng.choice(OTHER_POOL[vn])) for _ in range(n)])
+            return (skind, [(rng.choice(DOTHER_POOL[kn]), rng.choice(DOTHER_POOL[vn])) for _ in range(n)])
         return (skind, rpairs(n))
 
     ops = []
@@ -628,7 +667,9 @@ def _dict_random(rng, i, maxops):
             kv = rpairs(1)[0]
             ops.append(("setdefault",) + kv if rng.random() < 0.7 else ("setdefault1", kv[0]))
         elif r < 0.56:
-            ops.append(("copy",) if rng.random() < 0.4 else ("new", rsrc()))
+            src = rsrc()
+            ops.append(("copy",) if rng.random() < 0.3 else (("assign", src) if src[0] in ASSIGN_KINDS and rng.random() < 0.5
+                                                              else ("new", src)))
         elif r < 0.63:
             ops.append(("pop", q) if rng.random() < 0.5 else ("popd", q, rng.choice([None, 0, "d"])))
         elif r < 0.68:
@@ -707,8 +748,8 @@ def _g_dop(dk, op):
         return "(DSetItem %s %s)" % (gal(op[1]), gal(op[2]))
     if k == "update":
         return "(DUpdate %s %s)" % (_g_dsrc(dk, op[1]), _g_pairs(op[2]))
-    if k in ("ior", "or", "new"):
-        return "(%s %s)" % ({"ior": "DIOr", "or": "DOr", "new": "DNew"}[k], _g_dsrc(dk, op[1]))
+    if k in ("ior", "or", "new", "assign"):
+        return "(%s %s)" % ({"ior": "DIOr", "or": "DOr", "new": "DNew", "assign": "DAssign"}[k], _g_dsrc(dk, op[1]))
     if k == "setdefault":
         return "(DSetDefault %s (Some %s))" % (gal(op[1]), gal(op[2]))
     if k == "setdefault1":
@@ -747,7 +788,7 @@ def _g_dict_case(c):
             ps = [(op[1], None)]
         elif op[0] == "update":
             ps = _dsrc_contents(dk, op[1]) + list(op[2])
-        elif op[0] in ("ior", "new"):
+        elif op[0] in ("ior", "new", "assign"):
             ps = _dsrc_contents(dk, op[1])
         for a, b in ps:
             ks.append(a)
@@ -761,11 +802,11 @@ def _plain_data(v):
     handed back) is observed as `Other(9)`: never a crash of the harness, never equal to a model value"""
     if v is None or isinstance(v, (bool, int, float, str, bytes, Proxy, Other)):
         return v
-    if type(v) is list:
+    if isinstance(v, list):
         return [_plain_data(x) for x in v]
     if type(v) is tuple:
         return tuple(_plain_data(x) for x in v)
-    if type(v) is dict:
+    if isinstance(v, dict):
         return {k: _plain_data(x) for k, x in v.items()}
     return Other(9)
 
@@ -797,6 +838,15 @@ def _apply_dict(obj, op, arg, kw):
         if isinstance(obj, DictProxy):
             return DictProxy(obj.cfg, obj.dict_field) if arg is _NOARG else DictProxy(obj.cfg, obj.dict_field, arg)
         return dict() if arg is _NOARG else dict(arg)
+    if k == "assign":
+        from cincoconfig.fields.dict_field import DictProxy
+        if isinstance(obj, DictProxy):
+            obj.cfg.d = arg                    # whole-value assignment to the field that holds obj
+        else:
+            new = dict(arg)
+            obj.clear()
+            obj.update(new)
+        return None
     if k == "setdefault":
         return obj.setdefault(arg[0], arg[1])
     if k == "setdefault1":
@@ -916,7 +966,7 @@ def _impl_dict(c):
             r = vpair(*parg)
             accepted, targ = r is not None, r
             checked = [parg]
-        elif k in ("update", "ior", "or", "new"):
+        elif k in ("update", "ior", "or", "new", "assign"):
             skind, ps = op[1]
             contents = _dsrc_contents(dk, op[1])
             if skind == "none":
@@ -954,13 +1004,13 @@ def _impl_dict(c):
                             "pairs2": lambda v: [list(x) for x in v], "duck": _Duck, "mappingsub": _mapsub,
                             "mapping": lambda v: collections.UserDict(dict(v)),
                             "mappingproxy": lambda v: types.MappingProxyType(dict(v))}[skind]([tuple(x) for x in ps])
-            elif k == "new" and skind == "othercfg":
+            elif k in ("new", "assign") and skind == "othercfg":
                 targ = dict(contents)          # same field: DictProxy.__init__ does not validate again
             elif skind not in ("none", "self", "compat"):
                 norm, src_ok = vpairs(contents)
                 targ = norm if src_ok else None
                 accepted = src_ok
-            if k != "or" and not (skind in ("none", "self", "compat") or (k == "new" and skind == "othercfg")):
+            if k != "or" and not (skind in ("none", "self", "compat") or (k in ("new", "assign") and skind == "othercfg")):
                 checked = list(contents)
             if k == "update":
                 pkw = dict(op[2])
@@ -993,7 +1043,9 @@ def _impl_dict(c):
                     if targ is not _NOARG and targ is not None:
                         twin.update(targ)
                     twin.update(kw_prefix)
-        if type(p) is not DictProxy or cfg.d is not p:
+        if k == "assign":
+            p = cfg.d                           # the field holds a new object now
+        if not isinstance(p, DictProxy) or cfg.d is not p:
             return ("lost-proxy", k)
         trace.append((pout, Proxy(fid_of(p), dict(p)), tout, dict(twin)))
     return trace
@@ -1187,8 +1239,9 @@ def _g_lop(fname, op):
         return "(LInsert %s %s)" % (g_z(op[1]), gal(op[2]))
     if k == "setitem":
         return "(LSetItem %s %s)" % (g_z(op[1]), gal(op[2]))
-    if k in ("extend", "iadd", "add", "new"):
-        return "(%s %s)" % ({"extend": "LExtend", "iadd": "LIAdd", "add": "LAdd", "new": "LNew"}[k], _g_iterable(fname, op[1]))
+    if k in ("extend", "iadd", "add", "new", "assign"):
+        return "(%s %s)" % ({"extend": "LExtend", "iadd": "LIAdd", "add": "LAdd", "new": "LNew", "assign": "LAssign"}[k],
+                            _g_iterable(fname, op[1]))
     if k == "setslice":
         return "(LSetSlice %s %s)" % (_g_slice(op[1]), _g_iterable(fname, op[2]))
     if k in ("delitem", "getitem"):
@@ -1220,7 +1273,7 @@ def _list_inserted_values(fname, c):
             vals.append(op[1])
         elif op[0] in ("insert", "setitem"):
             vals.append(op[2])
-        elif op[0] in ("extend", "iadd", "add", "new"):
+        elif op[0] in ("extend", "iadd", "add", "new", "assign"):
             vals += _it_values(fname, op[1])
         elif op[0] == "setslice":
             vals += _it_values(fname, op[2])
@@ -1264,7 +1317,7 @@ def _enc_list_ret(r, recv, fid_of):
     if r is recv:
         return Other(0)
     if isinstance(r, ListProxy):
-        return Proxy(fid_of(r), list(r))
+        return Proxy(fid_of(r), _plain_data(list(r)))
     return _plain_data(r)
 
 
@@ -1288,6 +1341,13 @@ def _apply_list(obj, op, arg):
     if k == "new":
         from cincoconfig.fields.list_field import ListProxy
         return ListProxy(obj.cfg, obj.list_field, arg) if isinstance(obj, ListProxy) else list(arg)
+    if k == "assign":
+        from cincoconfig.fields.list_field import ListProxy
+        if isinstance(obj, ListProxy):
+            obj.cfg.l = arg                   # whole-value assignment to the field that holds obj
+        else:
+            obj[:] = list(arg)
+        return None
     if k == "setslice":
         obj[slice(*op[1])] = arg
         return None
@@ -1372,7 +1432,25 @@ def _impl_list(c):
     twin = []
     for x in c["init"]:
         twin.append(main.validate(None, x))
-    trace = [Proxy(fid_of(p), list(p)) if isinstance(p, ListProxy) else list(p)]
+    trace = [Proxy(fid_of(p), _plain_data(list(p))) if isinstance(p, ListProxy) else _plain_data(list(p))]
+    c["_ident"] = []
+    # count the calls of the item field's validate made by the operations on the proxy (and only those)
+    calls, counting = [0], [False]
+    real_validate = type(main).validate
+
+    def counted(cfg_, value):
+        if counting[0]:
+            calls[0] += 1
+        return real_validate(main, cfg_, value)
+    main.validate = counted
+    try:
+        return _impl_list_ops(c, trace, p, twin, cfg, helper, main, fid_of, calls, counting)
+    finally:
+        del main.validate
+
+
+def _impl_list_ops(c, trace, p, twin, cfg, helper, main, fid_of, calls, counting):
+    from cincoconfig.fields.list_field import ListProxy
     for op in c["ops"]:
         k = op[0]
         accepted, parg, targ, prefix = True, None, None, []
@@ -1380,7 +1458,7 @@ def _impl_list(c):
             parg = op[-1]
             r = _validate(main, parg)
             accepted, targ = r[0] == "ok", (r[1] if r[0] == "ok" else None)
-        elif k in ("extend", "iadd", "add", "setslice", "new"):
+        elif k in ("extend", "iadd", "add", "setslice", "new", "assign"):
             kind, items = op[-1]
             if kind == "self":
                 parg = p
@@ -1389,7 +1467,7 @@ def _impl_list(c):
                     accepted = all(r[0] == "ok" for r in rs)
                     targ = [r[1] for r in rs] if accepted else None
                 else:
-                    targ = twin
+                    targ = list(twin) if k == "assign" else twin
             else:
                 if kind == "same":
                     helper.l = list(items)
@@ -1406,7 +1484,9 @@ def _impl_list(c):
                 else:
                     vals = list(items)
                     parg = {"list": list, "tuple": tuple, "iter": iter, "gen": lambda v: (x for x in v)}[kind](list(items))
-                if kind == "same" and k != "setslice":
+                if k == "assign" and kind in ("iter", "gen"):
+                    accepted = False            # ListField accepts list / tuple instances only
+                elif kind == "same" and k != "setslice":
                     targ = list(vals)           # not validated again by the proxy: already normal
                 else:
                     rs = [_validate(main, x) for x in vals]
@@ -1416,16 +1496,36 @@ def _impl_list(c):
                         if r[0] != "ok":
                             break
                         prefix.append(r[1])
-        pout = _run(lambda: _enc_list_ret(_apply_list(p, op, parg), p, fid_of))
+        shadow = list(p)                      # the item objects held before the operation
+        raw = []
+
+        def on_proxy():
+            r = _apply_list(p, op, parg)
+            raw.append(r)
+            return _enc_list_ret(r, p, fid_of)
+        calls[0] = 0
+        counting[0] = True
+        try:
+            pout = _run(on_proxy)
+        finally:
+            counting[0] = False
+        ncalls = calls[0]
+        # identity of item objects: results that the builtin builds from the held items hold those very objects
+        if raw and k in ("copy", "mul", "rmul", "getslice", "iter", "reversed", "add") and isinstance(raw[0], list):
+            want = _apply_list(shadow, op, []) if k != "add" else list(shadow)
+            got = list(raw[0])[:len(want)] if k == "add" else list(raw[0])
+            c["_ident"].append((len(trace) - 1, [id(x) for x in got] == [id(x) for x in want]))
         if accepted:
             tout = _run(lambda: _enc_list_ret(_apply_list(twin, op, targ), twin, fid_of))
         else:
             tout = "skipped"
             if k in ("extend", "iadd"):
                 twin.extend(prefix)
-        if type(p) is not ListProxy or cfg.l is not p:
+        if k == "assign":
+            p = cfg.l                           # the field may hold a new object now
+        if not isinstance(p, ListProxy) or cfg.l is not p:
             return ("lost-proxy", k)
-        trace.append((pout, Proxy(fid_of(p), list(p)), tout, list(twin)))
+        trace.append((pout, Proxy(fid_of(p), _plain_data(list(p))), tout, _plain_data(list(twin)), ncalls))
     return trace
 
 
@@ -1493,16 +1593,28 @@ def _oracle_list(c, obs):
     if not isinstance(prev, Proxy):
         bad.append("the assigned list is not a typed list")
         return bad
-    for n, (op, (pout, pc, tout, tc)) in enumerate(zip(c["ops"], obs[1:])):
+    idem = c["field"] not in NONIDEM     # "a held item validates to itself" presupposes an idempotent item field
+    shared = dict(c.get("_ident", []))
+    for n, (op, (pout, pc, tout, tc, ncalls)) in enumerate(zip(c["ops"], obs[1:])):
         k = op[0]
         if not isinstance(pc, Proxy) or pc.fid != 0:
-            bad.append("step %d (%s): the list is no longer a typed list of its field" % (n, k))
+            held = pc.items if isinstance(pc, Proxy) else pc
+            bad.append("step %d (%s): the list is no longer a typed list of its field (the field holds %s; items %r were not "
+                       "validated by the receiving field)" % (n, k, "another field's typed list" if isinstance(pc, Proxy) else "a plain list",
+                                                              [x for x in held if _validate(main, x)[0] != "ok" or not _same(_validate(main, x)[1], x)]))
             break
         for x in pc.items:
             r = _validate(main, x)
-            if r[0] != "ok" or not _same(r[1], x):
+            if idem and (r[0] != "ok" or not _same(r[1], x)):
                 bad.append("step %d (%s): held item %r is not a validated item of the field" % (n, k, x))
                 break
+        if k in ("copy", "mul", "rmul", "imul", "getslice", "iter", "reversed", "pop", "getitem", "reverse", "sort", "clear",
+                 "delitem", "delslice", "remove", "index", "count", "contains", "len", "eq", "ne") and ncalls:
+            bad.append("step %d (%s): the item validator ran %d time(s); the operation takes no new item, held items are "
+                       "never validated again" % (n, k, ncalls))
+        if shared.get(n) is False:
+            bad.append("step %d (%s): the result does not hold the list's own item objects (the builtin's result is shallow: "
+                       "the same objects)" % (n, k))
         if tout != "skipped":
             if not _deep_same(pc.items, tc):
                 bad.append("step %d (%s): contents %r differ from the builtin's %r" % (n, k, pc.items, tc))
@@ -1515,7 +1627,7 @@ def _oracle_list(c, obs):
                 else:
                     for x in r.items:
                         v = _validate(main, x)
-                        if v[0] != "ok" or not _same(v[1], x):
+                        if idem and (v[0] != "ok" or not _same(v[1], x)):
                             bad.append("step %d (%s): the returned typed list holds unvalidated item %r" % (n, k, x))
                             break
             if pout[0] == "ok" and k == "iadd" and not (isinstance(pout[1], Other) and pout[1].tag == 0):
@@ -1567,7 +1679,7 @@ def tags(c, obs):
         return t
     t.add("%s:len0:%d" % (kind, min(len(obs[0].items), 4)) if isinstance(obs[0], Proxy) else kind + ":untyped")
     for op, step in zip(c["ops"], obs[1:]):
-        pout, _, tout, _ = step
+        pout, tout = step[0], step[2]
         res = "rejected" if tout == "skipped" else (pout[0] if pout[0] == "ok" else "err-" + pout[1])
         t.add("%s:%s:%s" % (kind, op[0], res))
         if kind == "dict" and op[0] == "update" and any(k in CLASH_NAMES for k, _ in op[2]):
